@@ -25,10 +25,13 @@ J == {Tr.judge[i] : i \in 1..Len(Tr.judge)}
 Accepts ==
   IF Tr.wild
   THEN Tr.result = "err"                               \* unsupported rule syntax: an error, never a crash or a silent selection
-  ELSE /\ Tr.result = "ok"                             \* transfers in the stated domain must succeed
+  ELSE /\ Tr.result = "ok" \/ (Tr.ioerr # 0 /\ Tr.result = "err")     \* transfers in the stated domain must succeed; one in which the sender
+                                                                      \* could not read a source argument may end with an error status
        /\ Tr.universe = Universe
        /\ LET list == SenderList(ToFs(Tr.src), Tr.opts, Tr.rules)
-              exp == Expected(ToFs(Tr.dst), list, Tr.opts, 0, Protected(Tr.rules))
+              \* ioerr: the sender hit a read error (a source argument that does not exist): what it could read is
+              \* transferred, and a deleting receiver deletes NOTHING (RecvOps!DeleteApplies)
+              exp == Expected(ToFs(Tr.dst), list, Tr.opts, Tr.ioerr, Protected(Tr.rules))
           IN TreeMatchesJ(exp.fs, ToFs(Tr.final), J)
        /\ "extra" \in J => Len(Tr.extra) = 0
        \* C14: the outcome does not depend on who sends: the destinations the other
